@@ -191,8 +191,11 @@ def same_series(a, b):
             return "units"
         if m1 != m2:
             return "mask"
-        if not np.allclose(np.asarray(v1, dtype=float), np.asarray(v2, dtype=float), rtol=1e-12, atol=0):
-            return "values"
+        try:
+            if not np.allclose(np.asarray(v1, dtype=float), np.asarray(v2, dtype=float), rtol=1e-12, atol=0):
+                return "values"
+        except (ValueError, TypeError):
+            return "values"  # not even numbers (e.g. the name of a spill file delivered as data)
     return None
 
 
